@@ -37,49 +37,49 @@ HARNESSES = {
         "files": ["harness/grpcgcp/zz_verif_cfg_test.go", "harness/grpcgcp/zz_verif_pool_test.go"], "rewrite": "vclock",
         "corpus_glob": "*.ops", "corpus_dirs": [],
         "episode_start": r"^cfg ",
-        "tiers": {"quick": {"episodes": 1200}, "thorough": {"episodes": 40000, "seeds": 8}},
+        "tiers": {"quick": {"episodes": 1200}, "thorough": {"episodes": 12000, "seeds": 8}},
     },
     "pb": {
         "module": "spanner_prober", "pkg": "prober", "test": "TestVerifProber",
         "files": ["harness/spanner_prober/prober/zz_verif_pb_test.go"],
         "corpus_glob": "*.ops", "corpus_dirs": [],
         "episode_start": r"^pb ",
-        "tiers": {"quick": {"episodes": 2000}, "thorough": {"episodes": 60000, "seeds": 8}},
+        "tiers": {"quick": {"episodes": 2000}, "thorough": {"episodes": 15000, "seeds": 8}},
     },
     "pbflags": {
         "module": "spanner_prober", "pkg": ".", "test": "TestVerifFlags",
         "files": ["harness/spanner_prober/main/zz_verif_flags_test.go"],
         "corpus_glob": "*.ops", "corpus_dirs": [],
         "episode_start": r"^pb ",
-        "tiers": {"quick": {"episodes": 3000}, "thorough": {"episodes": 100000, "seeds": 8}},
+        "tiers": {"quick": {"episodes": 3000}, "thorough": {"episodes": 25000, "seeds": 8}},
     },
     "kp": {
         "module": "grpcgcp", "pkg": ".", "test": "TestVerifKeyPath",
         "files": ["harness/grpcgcp/zz_verif_kp_test.go"],
         "corpus_glob": "*.ops", "corpus_dirs": [],
         "episode_start": r"^kp ",
-        "tiers": {"quick": {"episodes": 3000}, "thorough": {"episodes": 150000, "seeds": 8}},
+        "tiers": {"quick": {"episodes": 3000}, "thorough": {"episodes": 30000, "seeds": 8}},
     },
     "ck": {
         "module": "e2e-checksum", "pkg": ".", "test": "TestVerifChecksum",
         "files": ["harness/e2e-checksum/zz_verif_ck_test.go"],
         "corpus_glob": "*.ops", "corpus_dirs": [],
         "episode_start": r"^ck ",
-        "tiers": {"quick": {"episodes": 1500}, "thorough": {"episodes": 40000, "seeds": 8}},
+        "tiers": {"quick": {"episodes": 1500}, "thorough": {"episodes": 12000, "seeds": 8}},
     },
     "pool": {
         "module": "grpcgcp", "pkg": ".", "test": "TestVerifPool",
         "files": ["harness/grpcgcp/zz_verif_pool_test.go"], "rewrite": "vclock",
         "corpus_glob": "*.ops", "corpus_dirs": ["C01", "C02", "C03", "C04", "C05", "C06", "C07", "C08", "C09", "C20"],
         "episode_start": r"^pool cfg ",
-        "tiers": {"quick": {"episodes": 1500, "nops": 60}, "thorough": {"episodes": 30000, "nops": 80, "seeds": 8}},
+        "tiers": {"quick": {"episodes": 1500, "nops": 60}, "thorough": {"episodes": 6000, "nops": 80, "seeds": 8}},
     },
     "me": {
         "module": "grpcgcp", "pkg": "multiendpoint", "test": "TestVerifME",
         "files": ["harness/multiendpoint/zz_verif_me_test.go"],
         "corpus_glob": "*.ops", "corpus_dirs": ["C13", "C14"],
         "episode_start": r"^me new ",
-        "tiers": {"quick": {"episodes": 3000, "nops": 30}, "thorough": {"episodes": 60000, "nops": 40, "seeds": 8}},
+        "tiers": {"quick": {"episodes": 3000, "nops": 30}, "thorough": {"episodes": 15000, "nops": 40, "seeds": 8}},
     },
 }
 
